@@ -50,6 +50,11 @@ CONFIGS = [
      "handler": {"DSC": ("NAN", "ZERO", "ONE", "INF"), "IOU": ("INF", "NONE", "ZERO", "ONE"), "ASSD": ("ZERO", "INF", "ONE", "NAN")}, "metrics": ["DSC", "IOU"]},
     # clDSC is only defined for 2-D / 3-D input: 1-D inputs make evaluate raise (in the pristine run as well)
     {"input": "MATCHED_INSTANCE", "matcher": None, "metrics": ["DSC", "IOU", "clDSC"], "global": ["DSC", "clDSC"]},
+    # groups that can cover a whole array (inputs 20-23 have no background): a merge group of all labels, a merge group beside a plain one
+    {"input": "UNMATCHED_INSTANCE", "matcher": {"kind": "naive", "metric": "IOU", "thr": 0.5}, "global": ["DSC"],
+     "groups": {"all": {"labels": [1, 2, 3], "kind": "merge"}, "two": {"labels": [2], "kind": "plain"}}},
+    {"input": "MATCHED_INSTANCE", "matcher": None, "metrics": ["DSC", "IOU"],
+     "groups": {"m": {"labels": [2, 3], "kind": "merge"}, "p": {"labels": [1, 2, 3], "kind": "plain"}}},
 ]
 
 
@@ -70,6 +75,19 @@ def make_input(seed, k):
         pred = np.array([1, 1, 1, 1, 0, 0, 0, 0, 0, 3, 3, 3], dtype=np.uint8)
         if k % 12 == 9:
             pred, refa = refa.copy(), pred.copy()
+    if k >= 20:
+        # no background voxel at all: every voxel belongs to an instance / class (a region cut from inside an organ); in
+        # 20 and 21 only the labels 2 and 3 occur, so one group of the grouped configurations covers a whole array
+        shape = [(4, 6), (12,), (2, 3, 4), (5, 5)][k % 4]
+        n = int(np.prod(shape))
+        lab = {20: [2, 3], 21: [2, 3], 22: [1, 2, 3], 23: [2]}[k]
+        refa = np.sort(np.resize(np.array(lab, dtype=np.uint8), n)).reshape(shape)
+        pred = refa.copy()
+        if k in (20, 22):
+            pred = np.roll(pred.reshape(-1), 1 + k % 3).reshape(shape)
+        elif k == 21:
+            pred = gen.random_pair(seed, 61000 + k, dtype=np.uint8, max_inst=3, family="blobs")[0]
+            pred = np.minimum(np.resize(pred.reshape(-1), n).reshape(shape), 3).astype(np.uint8)
     # every fifth input comes in a non-native byte order (as read from big-endian files), which must be left as it is
     udt = np.dtype(np.uint16).newbyteorder(">") if k % 5 == 2 else pred.dtype
     return {
@@ -79,7 +97,7 @@ def make_input(seed, k):
     }
 
 
-N_INPUTS = 20
+N_INPUTS = 24
 
 
 def cases(tier, seed):
